@@ -14,6 +14,11 @@ ASSUMPTIONS = ['A4 no concurrent creation of the destination between probe and m
 MINIMUM = {'R06.1': 1, 'R06.2': 1, 'R06.3': 2}
 
 
+# rules of sibling properties that are necessary conditions of this one too
+# (evaluated by the sibling module on the same graphs, reported under this property)
+ALSO = {'C02': {'R02.2': "restore's effects are mkdir, MOVE, DELETE(info) only"},
+ 'C18': {'R18.5': 'restore moves with a primitive that fails or replaces as rename does'}}
+
 def check(ctx):
     b = ctx.graph('restore')
     g = b.g
